@@ -6,6 +6,7 @@ from vmon.checks.common import wrapper_agrees, obs, fail, both_views, random_pre
 EXTREMES = "seq"   # worker re-labels every sixth case to the ends of the legal ranges (gen.extremify)
 RESTATE = "seq"    # worker adds a signature restating the one in force to every fifth case (gen.restate_signatures)
 DEGEN = "seq"    # worker: every 37th case becomes a degenerate shape (gen.degenerate)
+REJECTED = "prefix"    # worker: every thirteenth case starts with a call the library rejects (common.apply_prefix "rejected")
 SCALE = True   # worker: every fortieth case is blown up by scale_case below
 PROP = "C05"
 MONITORS = ["quantise"]
